@@ -22,7 +22,7 @@ def signature(f):
     ev = d.get("event") or {}
     if d.get("kind") == "trace-rejected":
         runs = ev.get("runs") or []
-        acc = sorted(set(str(r.get("accepted")) for r in runs))
+        acc = sorted(set(str(r.get("accepted")) for r in runs if isinstance(r, dict))) if isinstance(runs, list) else ["?"]
         return "repro %s-rejected accepted=%s" % (ev.get("ev"), "/".join(acc))
     return "repro %s" % d.get("kind")
 
